@@ -567,6 +567,27 @@ def _user_generators(rep, sources):
         g = Duck()
         return Parser(AstBuilder(g)), Compiler(g), g
 
+    class Named:
+        """ids that are not numerals (nothing may compute with an id or sort by it)"""
+        def __init__(self):
+            self.mine, self.out = 0, []
+
+        def get_next_id(self):
+            self.mine += 1
+            self.out.append("node-" + "abcdefghij"[(self.mine - 1) % 10] + str(10 ** 6 - self.mine))
+            return self.out[-1]
+
+    def named():
+        g = Named()
+        return Parser(AstBuilder(g)), Compiler(g), g
+
+    def renamed(v, names):
+        if isinstance(v, dict):
+            return {k: (names[int(x)] if k in ("id", "astNodeId") else [names[int(y)] for y in x] if k == "astNodeIds" else renamed(x, names)) for k, x in v.items()}
+        if isinstance(v, (list, tuple)):
+            return type(v)(renamed(x, names) for x in v)
+        return v
+
     def rebound():
         g = Sub()
         parser, comp = Parser(), Compiler()
@@ -588,9 +609,15 @@ def _user_generators(rep, sources):
         if E.known_finding_input(s) or s.count("\n") > 300:
             continue
         ref, _ = run(standard)
-        for how in (subclass, duck, rebound, rebound_after_use):
+        for how in (subclass, duck, rebound, rebound_after_use, named):
             got, out = run(how)
             rep.case(("user-generator", how.__name__, s))
+            if how is named and got[0] == "ok" and ref[0] == "ok":
+                if got != renamed(ref, out) or len(out) != len(_all_ids(ref[1], ref[2])):
+                    rep.violation({"kind": "user-generator"}, {"engine": "user-generator", "what": "with a generator whose ids are not numerals the result is not the standard result with the ids renamed",
+                                                               "source": s, "standard": str(ref)[:300], "own": str(got)[:300]})
+                    break
+                continue
             if got != ref:
                 rep.violation({"kind": "user-generator"}, {"engine": "user-generator", "what": "with an id generator of the user's own (" + how.__name__ + ") the result differs from "
                                                            "the result with the standard generator", "source": s, "standard": str(ref)[:300], "own": str(got)[:300]})
@@ -869,7 +896,7 @@ def c16(tier, rep):
     rep.traces += len(cases)
     for inv in sorted(set(res.invariant_violations)):
         rep.violation({"kind": "spec-invariant", "invariant": inv}, {"engine": "MC_Scanner", "what": f"{inv} violated", "tlc_tail": res.out[-3000:]})
-    for b in badsc[:20]:
+    for b in [b for b in badsc if not SC.acceptable_anyway(b)][:20]:
         rep.violation({"kind": "scanner"}, {"engine": "MC_Scanner", "what": "the real TokenScanner reads something else than the specification's stream", **b})
     for b in LY.file_vs_string(srcs[:: 3 if q else 1]):
         rep.violation({"kind": "file-vs-string"}, {"engine": "files", **b})
